@@ -121,6 +121,37 @@ def r08_2(ctx, fx):
            detail="structs initialising next_substream_id: %d, of which from a fresh Arc: %s" % (len(creators), [c[0] for c in fresh_sites]))
 
 
+def r08_7(ctx, fx):
+    """"answered at most once": an outbound substream request that is answered with SubstreamOpened is forgotten as a *pending* open.
+    TransportService keeps the ids of requested substreams in `pending_substreams` and reports every id still in there as
+    SubstreamOpenFailure when its connection closes beside a second one (F21 repair).  Every path from the SubstreamOpened arm of
+    poll_next to the TransportEvent::SubstreamOpened it returns passes the removal of the id - or the Inbound edge of a test of the
+    direction (inbound substreams were never pending).  Otherwise the request is answered twice: opened, then failed."""
+    fn = ctx.fn(fx, "<protocol::transport_service::TransportService as futures::Stream>::poll_next", "R08.7")
+    if fn is None:
+        return
+    ev = [n for n, s_ in fn.aggregates(r"^protocol::TransportEvent$|protocol::TransportEvent$", "SubstreamOpened")]
+    rem = [c.node for c in fn.calls(r"HashMap(<.*>)?::remove$") if ".pending_substreams" in fn.recv(c)]
+    arms = []
+    for sw in fn.discr_switches():
+        if sw[2] and sw[2].endswith("InnerTransportEvent"):
+            arms += [n for n, l in fn.succs(sw[0]) if l in fn.variant_edges(sw, "SubstreamOpened")]
+    inbound = set()
+    for sw in fn.discr_switches():
+        if sw[2] and sw[2].endswith("substream::Direction") or (sw[2] and sw[2].endswith("protocol::Direction")):
+            ob = fn.variant_edges(sw, "Outbound")
+            for v in list(sw[3]) + list(sw[5]):
+                if v != "Outbound":
+                    for lab in fn.variant_edges(sw, v):
+                        if lab not in ob:
+                            inbound.add((sw[0], lab))
+    ctx.anchor("R08.7", "poll_next: SubstreamOpened arm / pending_substreams.remove / returned event", min(len(ev), len(rem), len(arms)), 1, cfg=fx.cfg)
+    for i, e in enumerate(ev):
+        ok = bool(arms) and bool(rem) and e not in fn.reach(arms, avoid=rem, cut=inbound)
+        ctx.ob("R08.7", "poll_next/SubstreamOpened#%d-forgets-the-pending-open" % i, ok, site=fn.site(e), cfg=fx.cfg,
+               detail="direction tests found: %d Inbound edges; an outbound substream that stays in pending_substreams is reported failed when its connection closes" % len(inbound))
+
+
 def r08_3(ctx, fx):
     n = n5 = 0
     # every coroutine of the transports' connection modules that opens an outbound substream: the `async move { .. }` block pushed to
@@ -233,4 +264,5 @@ def run(ctx):
             r08_2(ctx, fx)
             r08_4(ctx, fx)
             r08_6(ctx, fx)
+            r08_7(ctx, fx)
         r08_3(ctx, fx)
